@@ -17,7 +17,7 @@ META = common.meta(
 
 def tasks(tier, seed):
     out = []
-    n = 48 if tier == 'quick' else 320
+    n = 48 if tier == 'quick' else common.thorough(320)
     for k in range(n):
         out.append(('vt.props.c17', 't3_case', {'seed': seed, 'k': k, 'backend': 'T3', 'variant': ['exact', 'standard'][k % 2],
                                                 'lowrank': (k // 2) % 2 == 1, 'sig': ['exact', 'standard'][k % 2]}))
